@@ -1,17 +1,20 @@
 #!/bin/sh
-# import_seeded.sh <PID> : copy /tmp/mut/out/<PID>/{a,b} into seeded/<PID>-a, seeded/<PID>-b with a meta.json skeleton
+# usage: import_seeded.sh <SRC> <PROP> <letter> "<source note>"
+# Copies one change written by a seeding sub-agent (<SRC>/patch.diff, demo.py, README.md — e.g. /tmp/w9/C05/out/1) into
+# seeded/<PROP>-<letter>/ with a meta.json skeleton (base = current /repo HEAD, needs = head of the README). One-off ingestion
+# helper; not used by any registered command. Then: python3 tools/run_seeded.py seeded/<PROP>-<letter> --seeds 0,1
 set -e
-P=$1
-for k in a b c d e f; do
-  src=/tmp/mut/out/$P/$k
-  [ -f $src/patch.diff ] || continue
-  dst=/verif/seeded/$P-$k
-  mkdir -p $dst
-  cp $src/patch.diff $src/demo.py $dst/
-  [ -f $src/README.md ] && cp $src/README.md $dst/README.md
-  [ -f $dst/meta.json ] || python3 - "$P" "$dst" <<'PY'
-import json,sys
-json.dump(dict(property=sys.argv[1], checks=[sys.argv[1]], source="fresh sub-agent given only the property text and a scratch worktree",
-               needs="see README.md", runs=[]), open(sys.argv[2]+"/meta.json","w"), indent=1)
+S=$1; P=$2; L=$3; NOTE=${4:-"fresh sub-agent given only the property text and a scratch worktree"}
+V=$(cd "$(dirname "$0")/.." && pwd)
+D=$V/seeded/$P-$L
+[ -e "$D" ] && { echo "$D exists"; exit 1; }
+mkdir -p "$D"
+cp "$S/patch.diff" "$S/demo.py" "$S/README.md" "$D/"
+python3 - "$P" "$NOTE" "$D" <<'PY'
+import json,sys,subprocess
+p,note,d=sys.argv[1:4]
+base=subprocess.run(["git","-C","/repo","rev-parse","--short","HEAD"],capture_output=True,text=True).stdout.strip()
+needs=" ".join(open(d+"/README.md").read(300).split())
+json.dump(dict(property=p,checks=[p],source=note,needs=needs,base=base),open(d+"/meta.json","w"),indent=1)
 PY
-done
+echo imported "$D"
